@@ -8,7 +8,7 @@
     Makefile) built against wrappers generated from the current tree.
 """
 from .. import core
-from ..exec import callcheck, upstream
+from ..exec import callcheck, structs_e2e, upstream
 
 LEVEL = "exploration"
 
@@ -34,6 +34,8 @@ def run(ctx):
     callcheck.run_engine(ctx, "c", [None], 16 if quick else 300, ["c++"], with_overloads=True, nfunc=(1, 2), with_class=False)
     callcheck.run_engine(ctx, "c", [None], 12 if quick else 200, ["c++"], with_class=True, with_overloads=False, nfunc=(0, 2))
     callcheck.run_template_family(ctx, "c", 4 if quick else 50)
+    # struct arguments and results (struct.rst): by value, by pointer in / out / inout, result by value and by pointer
+    structs_e2e.run_structs(ctx, "c", 8 if quick else 150)
     names = upstream.target_lists()["c"]
     for name, res in zip(names, core.pool_map(_up_job, names)):
         ctx.case(label="upstream-testc")
@@ -50,4 +52,6 @@ def replay(ctx, rec):
         if res["stage"] != "ok":
             ctx.failure(rec["key"], c, observed=res["detail"], note=res["detail"][:800])
         return
+    if "struct_case" in c:
+        return structs_e2e.replay_case(ctx, rec)
     callcheck.replay_case(ctx, rec)
